@@ -390,7 +390,7 @@ def c11(prop, tier):
 def essa_matcher(jr, h, f, findings):
     for fd in findings:
         m = fd.get("match", {})
-        if fd.get("status") == "known" and m.get("engine") == "essa" and m.get("harness") == h["harness"] and m.get("msg") == f["msg"]:
+        if fd.get("status") == "known" and m.get("engine") == "essa" and m.get("harness") == h["harness"] and (m.get("msg") == f["msg"] or ("msg_suffix" in m and f["msg"].endswith(m["msg_suffix"]))):
             if "chooses" in m and list(m["chooses"]) != list(f.get("chooses") or []):
                 continue
             return fd["id"]
@@ -495,20 +495,25 @@ def c15(prop, tier):
 
 
 def c12(prop, tier):
-    params = [("q1021-p53", {"NATIVEQ": "1021", "QBITSNATIVE": "10", "EMMOD": "53", "EMNBLIMBS": "2"})]
-    if tier != "quick":
-        params += [("q1021-p23", {"NATIVEQ": "1021", "QBITSNATIVE": "10", "EMMOD": "23", "EMNBLIMBS": "2"}),
-                   ("q2039-p61", {"NATIVEQ": "2039", "QBITSNATIVE": "11", "EMMOD": "61", "EMNBLIMBS": "2"})]
+    base = {"PKGNAME": "emulated", "NATIVEQ": "251", "QBITSNATIVE": "8", "EMNBLIMBS": "2", "EMLIMBBITS": "2"}
+    mods = ["13"] if tier == "quick" else ["13", "11"]
+    ops = ["Add", "Sub", "Neg", "Sum", "MulConst", "Select", "Lookup2", "Mux"]
     jobs = []
-    for name, sub in params:
-        for entry in ("verifHarness_emulatedLinear", "verifHarness_emulatedMul"):
-            jobs.append(Job("emulated-%s-%s" % (entry.split("_")[1], name), "./std/math/emulated", ["prelude_sym.go", "c12_emulated.go"], dict(sub, PKGNAME="emulated"), entries=[entry], timeout_ms=60000, maxpaths=60000))
+    for m in mods:
+        for k, op in enumerate(ops):
+            jobs.append(Job("linear-%s-q251-p%s" % (op, m), "./std/math/emulated", ["prelude_sym.go", "c12_emulated.go", "c12_linear.go"],
+                            dict(base, EMMOD=m, LINOPSEL=str(k)), timeout_ms=20000 if tier == "quick" else 60000, maxpaths=20000))
+        jobs.append(Job("mul-reduce-equal-q251-p%s" % m, "./std/math/emulated", ["prelude_sym.go", "c12_emulated.go", "c12_mul.go"],
+                        dict(base, EMMOD=m, MULBOTHOF="1" if tier == "quick" else "2"), timeout_ms=30000 if tier == "quick" else 120000, maxpaths=20000))
     return run_property(prop, tier, jobs,
-                        title="C12 (narrow slice): the real emulated.Field methods against a native-field stand-in GF(q) with machine arithmetic modulo q.",
+                        title="C12 (narrow slice): the real emulated.Field methods - Add, Sub, Neg, Sum, MulConst, Select, Lookup2, Mux, Mul, MulNoReduce, Reduce, AssertIsEqual and what they call (reduceAndOp, the overflow pre-conditions, subPadding, callMulHint, mulMod, checkZero, enforceWidth, packLimbs) - executed against a frontend.API / range-checker stand-in over a small native field GF(q), q = 251, for an emulated modulus p = 13 (thorough also 11) on 2 limbs of 2 bits; operands are the representations the library produces (0..3 limbs, tracked overflow 0 / 1 / maximal with every limb symbolic below 2^(w+f); constants). Linear operations and selections: exact arithmetic with the obligation that no native addition / subtraction / multiplication leaves [0, q), Reduce by its contract; no nil limb, every limb below 2^(w + tracked overflow), result (and result + result) congruent to the integer result mod p. Multiplication / reduction / equality in three readings: honest hint (every range check and deferred identity holds, the quotient fits), adversarial hints with the deferred checks as emitted (quotient, remainder, carries arbitrary elements of GF(q); each mulCheck replaced by the coefficient-wise identity a(X)b(X) = r(X) + k(X)p(X) + (2^w - X)c(X) over GF(q), which is what its random-point test establishes), adversarial hints with the carries assumed bounded.",
                         design_ref="DESIGN.md §3 C12",
                         finding_matcher=essa_matcher,
-                        assumptions=["Schwartz-Zippel / commitment binding: the deferred random-point test establishes the polynomial identity over the native field"],
-                        outside=["everything else"],
+                        assumptions=["Schwartz-Zippel over the committed challenge and binding of the commitment: the deferred random-point test establishes the polynomial identity over the native field (the evaluation code of performDeferredChecks is not executed)",
+                                     "stand-in sizes: native field GF(251), emulated modulus 13 / 11, 2-bit limbs (the code under test reads the sizes from FieldParams and Compiler().FieldBitLen(); NewField's own parameter checks - at least 3 bits per limb - are bypassed by constructing the Field directly)",
+                                     "Reduce satisfies its contract in the linear-operations harness (its soundness is the subject of the multiplication harness, and is what finding F16 is about)"],
+                        outside=["Div, Inverse, Sqrt, Exp, ToBits, ToBitsCanonical, AssertIsInRange, IsZero, AssertIsDifferent, the variable-modulus operations, Eval (multivariate deferred checks)",
+                                 "negative constants in MulConst (see DESIGN.md)", "limb widths and moduli of the real instantiations (4 x 64 bits ...): the same generic code, other sizes", "the in-circuit evaluation of the deferred checks, multicommit, the range checker's own soundness (C13)"],
                         expect_reach={"verifHarness_emulatedLinear": ["emulated-linear"], "verifHarness_emulatedMul": ["emulated-mul"]})
 
 
